@@ -17,12 +17,12 @@ import (
 )
 
 type genFunc struct {
-	Name    string
-	Plugin  string
-	Key     string // plugin(params) results
-	Text    string // canonical text (doc + declaration)
-	TyName  string // what newName would use: name of the first parameter's type if named or basic
-	Pos     int    // position in the file
+	Name   string
+	Plugin string
+	Key    string // plugin(params) results
+	Text   string // canonical text (doc + declaration)
+	TyName string // what newName would use: name of the first parameter's type if named or basic
+	Pos    int    // position in the file
 }
 
 type output struct {
